@@ -717,6 +717,34 @@ pub fn specification(c: &mut Chooser, names: &Names) -> fol::Specification {
         );
         formulas.push(annotated(fol::Role::Spec, direction(c), "range", f));
     }
+    // an existentially quantified equivalence (equivalence breaking must not distribute `exists`
+    // over the two halves), decided without consuming a choice
+    if c.aux(51, 3) == 0 {
+        let o = names.outputs[c.aux(52, names.outputs.len())].clone();
+        let i = names.inputs[c.aux(53, names.inputs.len())].clone();
+        if o.1 == 1 && i.1 == 1 {
+            // `exists X (o(X) <-> not in(X))` is false exactly when o and in coincide: the shape on
+            // which a wrongly distributed quantifier shows
+            let rhs = match c.aux(54, 4) {
+                0 => fatom(&i, fvar("X")),
+                1 | 2 => fol::Formula::UnaryFormula {
+                    connective: fol::UnaryConnective::Negation,
+                    formula: Box::new(fatom(&i, fvar("X"))),
+                },
+                _ => fcmp(fvar("X"), fol::Relation::Greater, fnum(c.aux(55, 3) as isize)),
+            };
+            let body = fbin(fol::BinaryConnective::Equivalence, fatom(&o, fvar("X")), rhs);
+            let f = fol::Formula::QuantifiedFormula {
+                quantification: fol::Quantification {
+                    quantifier: fol::Quantifier::Exists,
+                    variables: vec![fol::Variable { name: "X".into(), sort: fol::Sort::General }],
+                },
+                formula: Box::new(body),
+            };
+            let d = [fol::Direction::Universal, fol::Direction::Backward, fol::Direction::Forward][c.aux(56, 3)];
+            formulas.push(annotated(fol::Role::Spec, d, "some", f));
+        }
+    }
     // a specification that is silent about a propositional output predicate: the predicate then
     // occurs in some of the emitted problems only
     if let Some(last) = names.outputs.last() {
@@ -861,7 +889,59 @@ pub fn external_task(c: &mut Chooser) -> ExternalTask {
     external_task_with(c, names)
 }
 
+/// rename the variables of a program (X, Y) to names that anthem's translations also pick for
+/// their own auxiliary variables
+pub fn rename_program_variables(p: &mut asp::Program, x: &str, y: &str) {
+    fn term(t: &mut asp::Term, x: &str, y: &str) {
+        match t {
+            asp::Term::Variable(v) => {
+                if v.0 == "X" {
+                    v.0 = x.to_string();
+                } else if v.0 == "Y" {
+                    v.0 = y.to_string();
+                }
+            }
+            asp::Term::PrecomputedTerm(_) => {}
+            asp::Term::UnaryOperation { arg, .. } => term(arg, x, y),
+            asp::Term::BinaryOperation { lhs, rhs, .. } => {
+                term(lhs, x, y);
+                term(rhs, x, y);
+            }
+        }
+    }
+    for r in &mut p.rules {
+        match &mut r.head {
+            asp::Head::Basic(a) | asp::Head::Choice(a) => a.terms.iter_mut().for_each(|t| term(t, x, y)),
+            asp::Head::Falsity => {}
+        }
+        for f in &mut r.body.formulas {
+            match f {
+                asp::AtomicFormula::Literal(l) => l.atom.terms.iter_mut().for_each(|t| term(t, x, y)),
+                asp::AtomicFormula::Comparison(cmp) => {
+                    term(&mut cmp.lhs, x, y);
+                    term(&mut cmp.rhs, x, y);
+                }
+            }
+        }
+    }
+}
+
 pub fn external_task_with(c: &mut Chooser, names: Names) -> ExternalTask {
+    let mut task = external_task_plain(c, names);
+    // in one task of three the program variables carry names that tau*, natural and the simplifier
+    // also use for their fresh variables (decided without consuming a choice)
+    const ALIASES: [(&str, &str); 6] = [("K", "I"), ("J", "N"), ("I", "J1"), ("V1", "Z"), ("Q", "R"), ("N1", "K")];
+    if c.aux(61, 3) == 0 {
+        let (x, y) = ALIASES[c.aux(62, ALIASES.len())];
+        if let Some(p) = task.left_program.as_mut() {
+            rename_program_variables(p, x, y);
+        }
+        rename_program_variables(&mut task.right, x, y);
+    }
+    task
+}
+
+fn external_task_plain(c: &mut Chooser, names: Names) -> ExternalTask {
     let ug = ug_assumptions(c, &names);
     if c.flag(2, 3) {
         let left = program(c, &names, &names.left_private.clone(), &names.outputs.clone());
